@@ -115,7 +115,10 @@ def _plan(draw, max_chain):
     items = [draw(_item(i)) for i in range(n)]
     counter = [0]
     chain = [draw(_op(counter)) for _ in range(draw(st.integers(1, max_chain)))]
-    return {"items": items, "chain": chain}
+    plan = {"items": items, "chain": chain}
+    if draw(st.integers(0, 3)) == 0:
+        plan["peek_items"] = draw(st.sampled_from([1, 2, 3, 7]))      # dataiter.DEFAULT_PEEK_ITEMS: head()/tail() default
+    return plan
 
 
 def strategy(tier):
@@ -159,6 +162,9 @@ def _n(spec, length):
 
 
 # -- the reference: plain list of plain dicts ----------------------------------------------
+
+_PEEK = [3]
+
 
 def ref_apply(ref, op):
     name = op["op"]
@@ -241,10 +247,10 @@ def ref_apply(ref, op):
     if name == "reverse":
         return list(reversed(ref))
     if name == "head":
-        n = _n(op["n"], len(ref)); n = 3 if n is None else n
+        n = _n(op["n"], len(ref)); n = _PEEK[0] if n is None else n
         return ref[:min(n, len(ref))]
     if name == "tail":
-        n = _n(op["n"], len(ref)); n = 3 if n is None else n
+        n = _n(op["n"], len(ref)); n = _PEEK[0] if n is None else n
         k = min(n, len(ref))
         return ref[len(ref) - k:]
     if name == "slice":
@@ -356,6 +362,8 @@ def compare(step, op, real, ref):
 
 def check(plan, ctx):
     import contextlib, io
+    _PEEK[0] = plan.get("peek_items", 3)
+    di.DEFAULT_PEEK_ITEMS = _PEEK[0]
     ref = [dict(x) for x in plan["items"]]
     real = di.ListOfDicts([dict(x) for x in plan["items"]])
     compare(-1, {"op": "init"}, real, ref)
